@@ -51,9 +51,12 @@ Prev == {[served |-> FALSE, decl |-> "none", hasCat |-> FALSE]} \cup [served : {
 \* be held against a pattern is not thereby allowed.
 Scn == [ident : Identities, upper : BOOLEAN, policy : Policies, decl : Decls, hasCat : BOOLEAN, failOnMissing : BOOLEAN, prev : Prev,
         typed : BOOLEAN,
-        swamidCat : {"none", "re_only", "re_eu"}]         \* swamid categories the provider declares besides
+        \* swamid categories the provider declares besides; "rs_support": it declares research-and-scholarship under
+        \* entity-category-*support* (what an IdP says about itself), which entitles to nothing
+        swamidCat : {"none", "re_only", "re_eu", "rs_support"}]
 WellFormed(s) == /\ s.typed => ~s.prev.served /\ ~s.upper
-                 /\ s.swamidCat # "none" => s.policy = "ec_swamid" /\ ~s.prev.served /\ ~s.typed /\ ~s.upper
+                 /\ s.swamidCat \in {"re_only", "re_eu"} => s.policy = "ec_swamid" /\ ~s.prev.served /\ ~s.typed /\ ~s.upper
+                 /\ s.swamidCat = "rs_support" => s.policy \in {"ec", "ec_swamid", "ec_names1"} /\ ~s.prev.served /\ ~s.typed /\ ~s.upper /\ ~s.hasCat
                  /\ s.policy = "ec_swamid" => ~s.prev.served /\ ~s.typed
 
 VARIABLES scn, pc, ava, outcome
